@@ -179,6 +179,8 @@ def run_cluster(ctx, sub, seed, mode, engine, dur, clients, nseq, replay_cases=N
     shutil.rmtree(d, ignore_errors=True)
     os.makedirs(d)
     tdur = 3 if ctx.tier == "quick" else 8
+    if ctx.tier != "quick":
+        extra = "-partitions " + extra       # thorough: the nemesis also cuts raft links between replicas
     cmd = "%s -seed %d -out %s -port %d -mode %s -engine %s -dur %ds -clients %d -nseq %d -racedur %ds -pairdur %ds" % (
         os.path.join(vlib.BIN, CMD), seed, d, port_base(), mode, engine, dur, clients, nseq, tdur, tdur)
     if extra:
@@ -448,7 +450,8 @@ def run(ctx):
         distinct_nontrivial=len(distinct),
         rule="one harness run = real 3-replica namespace (static seed nodes) + N concurrent redis clients on 3 live keys "
              "(each key retired after 24-40 operations or 4 unknown outcomes) + seeded nemesis (graceful stop/restart, leader transfer; "
-             "with three OS processes also kill -9 / respawn and SIGSTOP / SIGCONT pauses); a history = all operations on one key incl. the final read of every "
+             "with three OS processes also kill -9 / respawn and SIGSTOP / SIGCONT pauses; thorough: also network partitions, i.e. raft "
+             "links cut at the receiving transport); a history = all operations on one key incl. the final read of every "
              "replica's store. Non-trivial = at least 8 operations and at least one pair overlapping in real time; distinct by hash. "
              "Before the random load every run has two fault-free targeted phases: RACES (all clients send SET..NX / SET / SETNX / "
              "DEL / SET..XX on the same fresh key at the same moment, each through its own replica, so that the entries share an "
